@@ -351,4 +351,7 @@ def run(ctx):
             if fs != "default":
                 r.rule += "@" + fs
         out += res
+    if ctx.tier == "thorough":
+        from vlib import witness
+        out.append(witness.rule("C10", ['UnknownSerdeIsInert'], "C10.R10"))
     return out
